@@ -75,7 +75,7 @@ package dns
 
 //@ func isDomainNameLabelSpecial [C02]
 
-//@ func UnpackDomainName [C02 C03]
+//@ func UnpackDomainName [C02 C03 C04]
 //@   requires 0 <= off
 //@   assert at ", lenmsg, ErrBuf@1" e1: off >= len(msg) [C03]
 //@   assert at ", lenmsg, ErrBuf@2" e2: off + c > len(msg) && 1 <= c && c <= 63 [C03]
@@ -83,6 +83,8 @@ package dns
 //@   assert at ", lenmsg, ErrBuf@3" e4: off >= len(msg) [C03]
 //@   assert at "too many compression pointers" e5: ptr > 10 [C03]
 //@   assert at ", lenmsg, ErrRdata" e6: (c / 64) % 4 == 1 || (c / 64) % 4 == 2 [C03]
+// RFC 1035 4.1.4: a pointer is two octets, 11 followed by a 14-bit offset from the start of the message
+//@   assert after "off = (c^0xC0)<<8 | int(c1)" target: c >= 192 && off == (c - 192) * 256 + c1 && off < 16384 [C04]
 //@   ensures ok:   ret2 == nil ==> off < ret1 && ret1 <= len(msg)
 //@   ensures fail: ret2 != nil ==> ret1 == len(msg)
 //@   loop 1 invariant lenmsg == len(msg) && 0 <= off && 0 <= ptr && ptr <= maxCompressionPointers
